@@ -15,6 +15,7 @@ from btclib.p2p import compact_blocks as cbm
 from btclib.p2p.compact_blocks import CmpctBlock, PrefilledTransaction, reconstruct
 from btclib.tx import OutPoint, Tx, TxIn, TxOut
 
+from . import c17_oracles as xo
 from . import common
 from .common import hx, unhx
 
@@ -32,8 +33,13 @@ TRUSTED = [
     "SHA-256 / SipHash-2-4 executable models (Model/Common) are modelled, not verified (validated against hashlib by the hashes builder)",
     "cb.reconstruct stream: compact_blocks._short_id is replaced in-process by a table so that 48-bit collisions can be "
     "forced; the real _short_id is tied separately (cb.shortid)",
-    "next_bits: the integer parameter `timespan` stands for int((last - first).total_seconds()); the datetime glue is "
-    "exercised by the pow.next streams with whole-second datetimes",
+    "next_bits: the integer parameter `timespan` stands for int((last - first).total_seconds()) (the translator "
+    "substitutes that exact expression; another spelling breaks the obligation); the datetime glue itself is exercised "
+    "by the pow.next streams with whole-second UTC datetimes and by the pow.next_bits.tz / .same_zone oracles under four "
+    "process time zones (naive and aware datetimes over DST changes) against integer seconds",
+    "block.validity: Block.parse / Block(...) take no pow limit; the oracle swaps the DEFAULT ARGUMENT of "
+    "Block.assert_valid to regtest for those calls (mined regtest blocks), and uses the untouched default on mainnet "
+    "block 481824",
 ]
 ASSUMPTIONS = ["collision resistance of SHA-256d is what merkle soundness reduces to (theorem exhibits the collision)"]
 
@@ -266,8 +272,9 @@ def impl(line: str) -> str:
         if op == "core.getcompact":
             return "ok " + str(int.from_bytes(pw.bits_from_target(int(t[1]).to_bytes(32, "big")), "big"))
         if op == "core.next":
+            first, last = xo.datetimes_for(int(t[2]))      # aware (UTC / DST zones / offsets) or naive, by the number
             return common.call_impl(
-                lambda: int.from_bytes(pw.next_bits(int(t[1]).to_bytes(4, "big"), _T0, _T0 + timedelta(seconds=int(t[2])),
+                lambda: int.from_bytes(pw.next_bits(int(t[1]).to_bytes(4, "big"), first, last,
                                                     pow_limit_bits=int(t[3]).to_bytes(4, "big")), "big"))
         if op == "core.work":
             return common.call_impl(pw.block_work, int(t[1]).to_bytes(4, "big"))
@@ -774,7 +781,38 @@ def _o_chain_work(w):
     return True, f"{len(seq)} headers, total {total}"
 
 
+KEY_SAME_ZONE = "next_bits.same-zone-aware-dst"
+
+
+def _o_next_bits_tz(w):
+    """next_bits under a process time zone (os.environ['TZ'] + time.tzset()), naive and aware datetimes spanning the
+    zone's DST changes, against Core's integer arithmetic over the reference seconds: wall-clock seconds for naive
+    readings (the documented, zone-independent meaning), unix seconds between the instants for aware ones."""
+    return xo.next_bits_tz(w, core_next)
+
+
+def _o_next_bits_same_zone(w):
+    """two aware datetimes carrying the SAME zoneinfo object: the instants are `seconds` apart; the answer must be
+    Core's over those seconds.  (Python subtracts such a pair as wall-clock readings; a failure that is exactly that
+    reading is reported as `same-zone wall clock`, anything else as itself.)"""
+    ok, detail = xo.next_bits_tz(w, core_next)
+    if ok:
+        return ok, detail
+    with xo.process_tz(w["tz"]):
+        first, last, _ = xo.make_times(w)
+    wall = xo._wall(last) - xo._wall(first)
+    lim = int(w.get("limit", 0x1D00FFFF))
+    got = int.from_bytes(pw.next_bits(int(w["bits"]).to_bytes(4, "big"), first, last, pow_limit_bits=lim.to_bytes(4, "big")), "big")
+    if got == core_next(int(w["bits"]), wall, core_set_compact(lim)[0]):
+        return False, f"same-zone wall clock ({wall} s instead of the elapsed seconds): " + detail
+    return False, detail
+
+
 ORACLES = {
+    "block.validity": xo.block_validity,
+    "block.validity.real": xo.block_validity_real,
+    "pow.next_bits.tz": _o_next_bits_tz,
+    "pow.next_bits.same_zone": _o_next_bits_same_zone,
     "merkle.inner_tx": _o_merkle_inner_tx,
     "pow.chain_work": _o_chain_work,
     "bip158.vector": _o_bip158_vector,
@@ -887,6 +925,30 @@ def run(ctx):
         ctx.check("pow.work", {"bits": n}, key="block_work.vs_core", nontrivial=core_block_proof(n) != 0)
     for v in targets[: ctx.n(4000, 100000)]:
         ctx.check("pow.roundtrip", {"target": str(v)}, nontrivial=v != 0)
+    # next_bits' datetime glue under process time zones: windows laid over each zone's DST changes (and controls)
+    changes = {z: xo.dst_changes(z) for z in xo.ZONES}
+    all_changes = sorted({c for v in changes.values() for c in v})
+    ctx.exhaustive_streams.append("pow.next_bits.tz: process TZ in {UTC, Europe/Rome, America/New_York, Australia/Lord_Howe} x "
+                                  "{naive, aware UTC, aware fixed offsets, aware zone+UTC, aware same zone}")
+    for z in xo.ZONES:
+        for kind in ("naive", "utc", "offset", "mixed", "same_zone"):
+            for _ in range(ctx.n(12, 150)):
+                zone = z if z != "UTC" and rng.random() < 0.6 else rng.choice(xo.ZONES[1:])
+                y, m, d = rng.choice(changes[zone if kind in ("mixed", "same_zone") else z] or all_changes)
+                start = datetime(y, m, d) - timedelta(days=rng.randrange(0, rng.choice([3, 14, 21])), seconds=rng.randrange(86400))
+                secs = rng.choice([T, T - 1, T + 1, T // 4 + rng.randrange(0, 3 * T), 10 * 86400 + 1234, 21 * 86400,
+                                   T // 4 - 1800, 4 * T + 1800, T // 4, 4 * T])
+                w = {"tz": z, "zone": zone, "kind": kind, "seconds": secs, "flip": rng.random() < 0.5,
+                     "first": [start.year, start.month, start.day, start.hour, start.minute, start.second],
+                     "offset": rng.choice([630, -210, 60, 345, 0]),
+                     "bits": rng.choice([0x1B0404CC, 0x1D00FFFF, 0x1A05DB8B, 0x170331DB, 0x1C7FFFFF]),
+                     "limit": rng.choice([0x1D00FFFF, 0x1D00FFFF, 0x1E0377AE])}
+                if kind != "same_zone":
+                    ctx.check("pow.next_bits.tz", w)
+                else:
+                    ok_, detail_ = _o_next_bits_same_zone(w)
+                    ctx.oracle("pow.next_bits.same_zone", ok_, detail_, witness={"oracle": "pow.next_bits.same_zone", "witness": w},
+                               key=KEY_SAME_ZONE if detail_.startswith("same-zone wall clock") else None)
     canon = [int.from_bytes(pw.bits_from_target(v.to_bytes(32, "big")), "big") for v in targets[:3000]]
     for n in canon:
         ctx.check("pow.canonical", {"bits": n})
@@ -992,6 +1054,20 @@ def run(ctx):
     for name in ["block_1.bin", "block_170.bin", "block_200000.bin", "block_481824_complete.bin"]:
         for _ in range(ctx.n(3, 40)):
             ctx.check("block.commitments", {"block": name, "seed": rng.getrandbits(32)})
+    # block validity on the real code alone: mined regtest blocks, every witness configuration x every tampering
+    ctx.exhaustive_streams.append("block.validity: {no witness, coinbase-only witness, some tx witness} x every tampering "
+                                  "(commitment / reserved value / witness / header root / transaction list) x 5 shapes")
+    for cfg in ("none", "coinbase", "tx"):
+        tampers = ["good"] + xo.ROOT_TAMPERS + ([] if cfg == "none" else xo.WITNESS_TAMPERS) + (xo.TX_TAMPERS if cfg == "tx" else [])
+        for tam in tampers:
+            shapes = [(0, 1), (1, 1), (2, 2), (3, 2), (rng.randrange(0, 9), rng.randrange(1, 6))]
+            shapes += [(rng.randrange(0, 12), rng.randrange(1, 8)) for _ in range(ctx.n(0, 30))]
+            for leg, seg in shapes:
+                ctx.check("block.validity", {"cfg": cfg, "tamper": tam, "legacy": leg, "segwit": seg, "seed": rng.getrandbits(32)})
+    reals = ["nonce.flip", "nonce.31", "nonce.33", "wit.malleate", "wit.extra"]
+    for tam in (reals + reals[3:] if thorough else
+                ["nonce.31", rng.choice(["nonce.flip", "nonce.33"]), rng.choice(["wit.malleate", "wit.extra"])]):
+        ctx.check("block.validity.real", {"tamper": tam, "seed": rng.getrandbits(32)})
 
     # ---------------------------------------------------------------- (c) Golomb-Rice coded sets, BIP158
     enc, dec = [], []
